@@ -3,7 +3,10 @@
  *
  *   hseq <scenario> <loglevel> <src> <hex;hex;...>
  *
- * scenario  idle   server with resources /r (GET), /o (observable GET), /b (PUT, block-wise by libcoap)
+ * scenario  idle   server with resources /r (GET), /o (observable GET), /b (PUT, block-wise by libcoap), /L (GET, a 100-byte
+ *                  body held in an exactly sized heap block and sent block-wise by libcoap), a proxy resource (own name
+ *                  "myhost": a received Proxy-Uri is parsed in place in the PDU buffer) 
+ *           b2     + a legitimate client has fetched block 0 (16 bytes) of /L: the server holds the body for the following blocks
  *           obs    + a legitimate client has registered an observation on /o (server holds a subscriber)
  *           blk    + a legitimate client has sent block 0 (M=1) of a Block1 PUT to /b (server holds a partial body)
  *           cli    the hostile datagrams go to a CLIENT session that has a Confirmable GET outstanding
@@ -30,6 +33,15 @@ static void hnd_put(coap_resource_t *r, coap_session_t *s, const coap_pdu_t *req
   (void)r; (void)s; (void)req; (void)q;
   n_handler++;
   coap_pdu_set_code(rsp, COAP_RESPONSE_CODE_CHANGED);
+}
+static void free_body(coap_session_t *s, void *p) { (void)s; free(p); }
+static void hnd_get_large(coap_resource_t *r, coap_session_t *s, const coap_pdu_t *req, const coap_string_t *q, coap_pdu_t *rsp) {
+  n_handler++;
+  uint8_t *body = malloc(100);             /* exactly sized: a read behind the body is a heap-buffer-overflow for ASan */
+  for (int i = 0; i < 100; i++) body[i] = (uint8_t)('A' + i % 26);
+  coap_pdu_set_code(rsp, COAP_RESPONSE_CODE_CONTENT);
+  if (!coap_add_data_large_response(r, s, req, rsp, q, COAP_MEDIATYPE_TEXT_PLAIN, -1, 0, 100, body, free_body, body))
+    coap_pdu_set_code(rsp, COAP_RESPONSE_CODE_INTERNAL_ERROR);
 }
 static coap_response_t on_rsp(coap_session_t *s, const coap_pdu_t *sent, const coap_pdu_t *rcvd, const coap_mid_t mid) {
   n_handler++;
@@ -101,6 +113,12 @@ static void step(char *line) {
   coap_resource_t *b = coap_resource_init(coap_make_str_const("b"), 0);
   coap_register_request_handler(b, COAP_REQUEST_PUT, hnd_put);
   coap_add_resource(srv, b);
+  coap_resource_t *L = coap_resource_init(coap_make_str_const("L"), 0);
+  coap_register_request_handler(L, COAP_REQUEST_GET, hnd_get_large);
+  coap_add_resource(srv, L);
+  const char *own[1] = { "myhost" };
+  coap_resource_t *px = coap_resource_proxy_uri_init2(hnd_get, 1, own, 0);
+  coap_add_resource(srv, px);
   cs = sim_new_client(cli, ntohs(ep->bind_addr.addr.sin.sin_port));
   uint8_t tok[2] = {0xab, 0xcd};
   if (!strcmp(scen, "obs")) {
@@ -120,6 +138,14 @@ static void step(char *line) {
       coap_add_option(p, COAP_OPTION_SIZE1, 1, &sz);
     }
     coap_add_data(p, 16, (const uint8_t *)"0123456789abcdef");
+    unsigned from = sim_ntx;
+    coap_send(cs, p);
+    deliver_pending_from(from);
+  } else if (!strcmp(scen, "b2")) {
+    uint8_t blk = 0x00;                    /* NUM 0, SZX 0 (16 bytes) */
+    coap_pdu_t *p = sim_make_pdu(cs, COAP_MESSAGE_CON, COAP_REQUEST_CODE_GET, 0x1000, tok, 2, NULL, 0);
+    coap_add_option(p, COAP_OPTION_URI_PATH, 1, (const uint8_t *)"L");
+    coap_add_option(p, COAP_OPTION_BLOCK2, 1, &blk);
     unsigned from = sim_ntx;
     coap_send(cs, p);
     deliver_pending_from(from);
